@@ -81,6 +81,10 @@ class Formulate:
         self.model = model
 
 
+HANDED = (lp.LinConstr, lp.Bounds, lp.CvxConstr, lp.ConeConstr, lp.ExpConstr, lp.KLConstr, lp.LMIConstr, lp.PWConstr, lp.RoConstr, lp.IPCone,
+          lp.Vars, lp.Affine, lp.Convex, lp.RoAffine, lp.PiecewiseConvex, lp.DecRule, lp.DecRuleSub)
+
+
 def _hand_over(A, r):
     """The misuse did not raise on the spot: hand the product to model A and formulate.  The
     property only demands that no compiled program is produced."""
@@ -109,7 +113,15 @@ def _raises(fname, label, build, use, bounded=False, formulate=True):
     def call(ns):
         r = use(ns["A"], ns["B"], ns["c"])
         if formulate:
-            return _hand_over(ns["A"], r)
+            try:
+                return _hand_over(ns["A"], r)
+            except ERR:
+                # model A refused the product.  A product that carries parts of BOTH models must be refused by model B as
+                # well (it is built from A's columns too): hand it to B; only if B refuses too does the misuse "fail loudly"
+                items = r if isinstance(r, (list, tuple)) else [r]
+                if isinstance(r, Formulate) or not any(isinstance(it, HANDED) for it in items):
+                    raise
+            return _hand_over(ns["B"], r)
         return r
     cname = "raises-before-a-program-is-compiled" if formulate else "raises"
     obs, _ = check_function(fname, setup, call, [always_raises(cname, ERR)], mode="D", label=label, bounded=bounded)
@@ -204,6 +216,15 @@ def cross_ro():
         "rstack": lambda A, B, c: lp.rstack(A["x"], B["x"]),
         "cstack": lambda A, B, c: lp.cstack(A["x"], B["x"]),
         "vec": lambda A, B, c: lp.vec(A["y"], B["y"]),
+        # stacking with the foreign operand in a later position and in every operand form (raw variable, slice, expression)
+        "concat foreign slice second": lambda A, B, c: lp.concat([A["x"], B["x"][:1]]),
+        "concat foreign first": lambda A, B, c: lp.concat([B["x"], A["x"]]),
+        "concat own expression then foreign variable": lambda A, B, c: lp.concat([2 * A["x"], B["x"]]),
+        "concat own variable then foreign expression": lambda A, B, c: lp.concat([A["x"], B["x"] + 0]),
+        "concat array, own, foreign": lambda A, B, c: lp.concat([np.ones(1), A["x"], B["x"]]),
+        "rstack foreign slice second": lambda A, B, c: lp.rstack(A["x"], B["x"][::-1]),
+        "cstack own expression then foreign variable": lambda A, B, c: lp.cstack(2 * A["x"], B["x"]),
+        "vec foreign slice": lambda A, B, c: lp.vec(A["y"], B["x"][0]),
         "Affine.concat": lambda A, B, c: A["x"].to_affine().concat(B["x"].to_affine()),
         "rsocone y": lambda A, B, c: rsome.rsocone(A["x"], B["y"], A["y"]),
         "rsocone z": lambda A, B, c: rsome.rsocone(A["x"], A["y"], B["y"]),
@@ -298,6 +319,9 @@ def cross_dro():
         "DecRoAffine.__add__ foreign": lambda A, B, c: (A["x"] @ A["z"]) + B["y"],
         "DecConvex.__add__ foreign": lambda A, B, c: abs(A["y"]) + B["y"],
         "concat dro": lambda A, B, c: lp.concat([A["x"], B["x"]]),
+        "concat dro foreign slice second": lambda A, B, c: lp.concat([A["x"], B["x"][:1]]),
+        "rstack dro own expression then foreign variable": lambda A, B, c: lp.rstack(2 * A["x"], B["x"]),
+        "cstack dro": lambda A, B, c: lp.cstack(A["x"], B["x"]),
         "maxof dro": lambda A, B, c: rsome.maxof(A["y"], B["y"]),
         # atoms and cones with ONE argument from the other model (both models have the same columns, so nothing fails by size)
         "expcone dro foreign x": lambda A, B, c: rsome.expcone(A["y"], B["x"][1], 1),
